@@ -223,8 +223,14 @@ pub fn run(opts: &Opts) -> i32 {
         return replay(opts, &rep_into(rep), p);
     }
     let quick = opts.tier == crate::report::Tier::Quick;
-    let (val_len, filt_len, topic_len, cover_len) =
-        if quick { (7, 6, 5, 5) } else { (8, 7, 6, 6) };
+    let (val_len, filt_len, topic_len, cover_len) = if std::env::var("VERIF_SANITIZER").is_ok() {
+        // sanitizer stage (interpreter speed): the same enumeration over shorter strings
+        (3, 3, 3, 3)
+    } else if quick {
+        (7, 6, 5, 5)
+    } else {
+        (8, 7, 6, 6)
+    };
 
     // 1. validation of every string up to val_len
     let all = all_strings(b"ab$/+#", val_len);
